@@ -518,7 +518,13 @@ func c11Catalogue() []c11Class {
 		l := c11EnsureList(r, c11PickFilter(r, m), "#a", func() *c11N { return c11S(c11Addr(r)) })
 		pk := c11Hex(r, 64)
 		var s, d string
-		switch r.IntN(12) {
+		switch r.IntN(15) {
+		case 12: // kinds far beyond int64: 2^64 + k wraps into range when accumulated without a check
+			s, d = vk.Pick(r, []string{"18446744073709581639", "18446744073709551616", "18446744073709617151", "36893488147419103232"})+":"+pk+":d", "kind-beyond-2^64"
+		case 13:
+			s, d = vk.Pick(r, []string{"4294967297", "4295032831", "9223372036854775807", "9223372036854775808"})+":"+pk+":d", "kind-huge"
+		case 14:
+			s, d = "99999999999999999999999999999999999999:"+pk+":d", "kind-38-digits"
 		case 0:
 			s, d = "", "empty"
 		case 1:
